@@ -1,0 +1,53 @@
+//go:build verif
+
+// Contracts for the acv verifier (/verif). Comment-only file: no executable code.
+
+package acrastruct
+
+//@ spec minLen() int = 8 + KeyBlockLength + DataLengthSize
+//@ spec dataLenOf(data []byte) int = int(le64(data[137:145]))
+//@ spec wellFormed(data []byte) bool = 145 <= len(data) && dataLenOf(data) == len(data) - 145
+
+//@ func GetMinAcraStructLength() (n int)
+//@   props C01 C03 C14
+//@   safety
+//@   ensures n == 145
+//@   modifies nothing
+
+//@ func GetDataLengthFromAcraStruct(data []byte) (n int)
+//@   props C01 C03 C14
+//@   safety
+//@   requires 145 <= len(data)
+//@   ensures n == dataLenOf(data)
+//@   modifies nothing
+
+//@ func ValidateAcraStructLength(data []byte) (err error)
+//@   props C01 C03 C14
+//@   safety
+//@   ensures err == nil ==> wellFormed(data)
+//@   ensures err == nil ==> forall(i, 0, 8, data[i] == TagSymbol)
+//@   modifies nothing
+
+//@ func ExtractAcraStruct(data []byte) (n int, out []byte, err error)
+//@   props C01 C03 C14
+//@   safety
+//@   ensures err == nil ==> 145 <= n && n <= len(data) && sameslice(out, data[:n]) && wellFormed(out)
+//@   ensures err != nil ==> n == 0 && out == nil
+//@   modifies nothing
+
+//@ func ProcessAcraStructs(ctx context.Context, inBuffer []byte, outBuffer []byte, processor Processor) (out []byte, err error)
+//@   props C01 C03 C14
+//@   safety
+//@   loop 0 invariant 0 <= inIndex && inIndex <= len(inBuffer)
+//@          invariant 0 <= outIndex && outIndex <= len(outBuffer)
+//@          decreases len(inBuffer) - inIndex
+//@   at call Processor.OnAcraStruct : assert 0 < len(arg[1]) && len(arg[1]) == dataLenOf(arg[1]) + 145
+
+//@ func DecryptAcrastruct(data []byte, privateKey *keys.PrivateKey, additionalContext []byte) (out []byte, err error)
+//@   props C01 C03 C14
+//@   safety
+
+//@ func DecryptRotatedAcrastruct(data []byte, privateKeys []*keys.PrivateKey, additionalContext []byte) (out []byte, err error)
+//@   props C01 C03 C14
+//@   safety
+//@   ensures err != nil ==> out == nil
